@@ -17,7 +17,7 @@ func init() { register("C18", runC18) }
 func q(s string) string { return regexp.QuoteMeta(s) }
 
 func runC18(c *core.Ctx) core.Meta {
-	c.Load(rdmaPkg, driverPkg, kernelsPkg)
+	c.Load(rdmaPkg, driverPkg, kernelsPkg, r9nanoPkg, mi300aPkg, tconfigPkg)
 	c.BuildSSA()
 	p := NewPkgInfo(c, rdmaPkg)
 	prov := core.NewProv(c)
@@ -293,6 +293,7 @@ func runC18(c *core.Ctx) core.Meta {
 	lp.InlinePure = true
 	checkWGDistribution(c, lp, "R18.6")
 	checkFilteredCountWholeGrid(c, "R18.11")
+	checkLocalRangeOfGPU(c, "R18.12", NewPkgInfo(c, tconfigPkg), NewPkgInfo(c, r9nanoPkg), NewPkgInfo(c, mi300aPkg))
 
 	// R18.9: the driver counts the work-groups it distributes with the grid builder's formula (R08.1's check)
 	checkWGCountFormula(c, prov, "R18.9", []string{driverPkg}, 2)
